@@ -15,7 +15,7 @@ FORMS = [(c, s) for c in CONTAINERS for s in ("upper", "sym")]
 EXTRA_FORMS = [("coo", "upper"), ("coo", "sym"), ("bsr", "upper"), ("bsr", "sym"), ("dok", "upper"), ("dok", "sym"), ("dia", "upper"), ("dia", "sym"),
                ("csr_array", "upper"), ("csr_array", "sym"), ("coo_array", "sym"), ("ndarray_float", "sym"), ("ndarray_bool", "upper")]
 RULE = (
-    "ALL labelled simple graphs on <= 4 vertices, connected or not (75 graphs, every vertex relabelling "
+    "sparse atlas graphs on 5-7 vertices (and disconnected unions of them with an extra edge) in rotating container forms against a cover of partners and inside 5-collections; ALL labelled simple graphs on <= 4 vertices, connected or not (75 graphs, every vertex relabelling "
     "included), all ordered pairs; each pair in 10 container/symmetry combinations "
     "({nested list, ndarray, csr, csc, lil} x {upper-triangular, symmetric}, rotated against each other) plus coo/bsr/dok/dia matrices, csr/coo sparse arrays, float and bool dense arrays; "
     "pairs with a disconnected graph additionally under every single deviation from the default RNG "
@@ -70,7 +70,24 @@ def to_form(A, form):
             "dok": sps.dok_matrix, "dia": sps.dia_matrix, "csr_array": sps.csr_array, "coo_array": sps.coo_array}[c](M)
 
 
+def big_graphs(tier):
+    """Sparse connected graphs on 5-7 vertices (atlas) and disconnected unions of them with a small part."""
+    a = mgh.atlas(5, 2) + mgh.atlas(6, 3) + mgh.atlas(7, 0 if tier == "quick" else 1)
+    out = list(a)
+    for g in a[:: 4]:
+        n = len(g)
+        U = [[0] * (n + 2) for _ in range(n + 2)]      # g plus a disjoint edge: largest component is g
+        for i in range(n):
+            for j in range(n):
+                U[i + 1][j + 1] = g[i][j]
+        U[0][n + 1] = 1
+        out.append(U)
+    return out
+
+
 def cases(tier):
+    for i in range(len(big_graphs(tier))):
+        yield {"kind": "big-row", "i": i}
     gs = all_graphs()
     for i, A in enumerate(gs):
         yield {"kind": "row", "i": i}
@@ -122,7 +139,9 @@ def bracket(ctx, A, B, res, nwarn, what):
 def run_case(case, ctx):
     try:
         with _seam.installed():
-            if case["kind"] == "row":
+            if case["kind"] == "big-row":
+                big_row(case, ctx)
+            elif case["kind"] == "row":
                 row(case, ctx)
             else:
                 collection(case, ctx)
@@ -183,6 +202,44 @@ def row(case, ctx):
             for prefix, tr, (res, nw) in explore(run, 1):
                 ctx.count("schedules_executed")
                 bracket(ctx, A, B, res, nw, {"answers": [t[2] for t in tr]})
+
+
+def big_row(case, ctx):
+    """Larger graphs in rotating container forms against a cover of partners, and inside a 5-collection."""
+    B_all = big_graphs(ctx.tier)
+    A = B_all[case["i"]]
+    partners = list(B_all) + [cover()[6], cover()[8]]     # ALL larger graphs as partners, one rotating form combination each
+    allf = FORMS + EXTRA_FORMS
+    for k, B in enumerate(partners):
+        fa, fb = allf[(case["i"] + 3 * k) % len(allf)], allf[(2 * case["i"] + 5 * k + 1) % len(allf)]
+        _seam.cache = {}
+        ctx.state(("big", case["i"], k, fa, fb))
+        for X, Y, f1, f2 in ((A, B, fa, fb), (B, A, fb, fa)):
+            res, nw, _ = gh_call(ctx, to_form(X, f1), to_form(Y, f2))
+            bracket(ctx, X, Y, res, nw, [f1, f2])
+    ctx.nontriv("larger_graph_%d_vertices" % len(A))
+    coll = [A] + [B_all[(case["i"] * 7 + 11 * k + 3) % len(B_all)] for k in range(4)]
+    forms = [allf[(case["i"] + 2 * p) % len(allf)] for p in range(5)]
+    _seam.cache = {}
+    res, nw, _ = gh_call(ctx, [to_form(g, f) for g, f in zip(coll, forms)])
+    ctx.valid()
+    try:
+        lbs, ubs = np.asarray(res[0], dtype=float), np.asarray(res[1], dtype=float)
+        assert lbs.shape == (5, 5) and ubs.shape == (5, 5)
+    except Exception:  # noqa: BLE001
+        ctx.violation("collection-shape", "collection call did not return two 5x5 matrices", observed=repr(res)[:200])
+        return
+    ctx.outcome((lbs.tolist(), ubs.tolist()))
+    if not (np.array_equal(lbs, lbs.T) and np.array_equal(ubs, ubs.T)) or np.any(np.diag(lbs) != 0) or np.any(np.diag(ubs) != 0):
+        ctx.violation("collection-symmetry", "collection matrices are not symmetric with zero diagonal", observed=[lbs.tolist(), ubs.tolist()])
+    for i in range(5):
+        for j in range(5):
+            if i != j:
+                ctx.valid()
+                truth2 = mgh.truth_candidates_double(coll[i], coll[j])
+                if not any(2 * lbs[i, j] <= t <= 2 * ubs[i, j] for t in truth2):
+                    ctx.violation("collection-bracket", "entry (%d,%d) of a 5-collection of larger graphs does not bracket the pairwise distance" % (i, j),
+                                  observed=[lbs[i, j], ubs[i, j]], expected=sorted(t / 2.0 for t in truth2), extra={"graphs": coll, "forms": forms})
 
 
 def collection(case, ctx):
